@@ -346,8 +346,70 @@ func (c *Ctx) ruleExpandedTree() {
 		}
 		if why, ok := directivesFieldReaders[f.Name()]; ok {
 			r.Ok("C17-EXPANDED-TREE", f.Name(), "allowed reader of the list as written: "+why, c.pos(pos))
+		} else if why := c.readsBeforeExpansion(f, fld); why != "" {
+			r.Ok("C17-EXPANDED-TREE", f.Name(), why, c.pos(pos))
 		} else {
 			r.Bad("C17-EXPANDED-TREE", f.Name(), "a phase after macro expansion reads core.directives (the list BEFORE expansion): directives that come out of a PASTE are invisible to it (e.g. {parameters} of a pasted resource get no path variable and are not declared in OpenAPI)", c.pos(pos))
 		}
 	}
+}
+
+// readsBeforeExpansion: every read of the list as written in f happens before the expansion: f is the function that
+// calls processPaste and none of its reads can be reached from that call; or every call of f sits in that function
+// before the call of processPaste; or f belongs to the scan phase or to the expansion itself.
+func (c *Ctx) readsBeforeExpansion(f *Fn, fld *types.Var) string {
+	pp := c.fn("core", "JApiCore.processPaste")
+	sp := c.fn("core", "JApiCore.scanProject")
+	if pp == nil {
+		return ""
+	}
+	for _, g := range c.reachableInPkg(pp) {
+		if g.Obj == f.Obj {
+			return "part of the expansion itself (reads its input)"
+		}
+	}
+	if sp != nil {
+		for _, g := range c.reachableInPkg(sp) {
+			if g.Obj == f.Obj {
+				return "part of the scan phase (fills the list)"
+			}
+		}
+	}
+	// the function that runs the expansion
+	var cc *Fn
+	var ppCall *ast.CallExpr
+	for _, g := range c.libFns() {
+		if calls := callsIn(g.Pkg, g.Decl.Body, pp.Obj); len(calls) == 1 && g.Obj != pp.Obj {
+			cc, ppCall = g, calls[0]
+		}
+	}
+	if cc == nil {
+		return ""
+	}
+	ccf := buildCFG(cc.Decl.Body)
+	// before: no path leads from the call of processPaste to the node
+	before := func(n ast.Node) bool { return !ccf.reachesWithout(ppCall, n, nil) }
+	if f.Obj == cc.Obj {
+		ok := true
+		ast.Inspect(f.Decl.Body, func(nd ast.Node) bool {
+			if sel, isSel := nd.(*ast.SelectorExpr); isSel && fieldSel(f.Pkg, sel) == fld && !before(sel) {
+				ok = false
+			}
+			return true
+		})
+		if ok {
+			return "reads the list as written only before the expansion runs (no read can be reached from the call of processPaste)"
+		}
+		return ""
+	}
+	sites, closed := c.callersOf(f)
+	if !closed || len(sites) == 0 {
+		return ""
+	}
+	for _, cs := range sites {
+		if cs.g.Obj != cc.Obj || !before(cs.call) {
+			return ""
+		}
+	}
+	return "only called before the expansion runs"
 }
